@@ -254,7 +254,7 @@ def skel_obj(name, variant):
 def helper_obj(src_name, variant, extra_flags=(), cxx=False):
     """Compile one of /verif/c/*.c(pp) against the skeleton headers (cached on both hashes)."""
     src = os.path.join(CDIR, src_name)
-    h = _sha([src] + sorted(glob.glob(os.path.join(CDIR, "*.h")))) + "-" + skel_hash()
+    h = _sha([src] + sorted(glob.glob(os.path.join(CDIR, "*.h")) + glob.glob(os.path.join(CDIR, "*.inc")))) + "-" + skel_hash()
     bdir = os.path.join(BUILD_ROOT, "hp-" + skel_hash())
     os.makedirs(bdir, exist_ok=True)
     tag = hashlib.sha1((" ".join(extra_flags)).encode()).hexdigest()[:6]
